@@ -2,6 +2,7 @@ package vuego
 
 import (
 	"fmt"
+	"strings"
 	"sync"
 
 	"github.com/expr-lang/expr"
@@ -45,9 +46,30 @@ func (e *ExprEvaluator) Eval(expression string, env map[string]any) (any, error)
 	// Run the compiled program
 	result, err := expr.Run(prog, env)
 	if err != nil {
+		// "!x" where x is not a boolean (nil, undefined, a number, a
+		// string): negate the operand's truthiness, as v-if does.
+		if operand, ok := negatedPath(expression); ok {
+			if val, operandErr := e.Eval(operand, env); operandErr == nil {
+				return !helpers.IsTruthy(val), nil
+			}
+		}
 		return nil, fmt.Errorf("eval error: %w", err)
 	}
 	return result, nil
+}
+
+// negatedPath reports whether expression is "!" applied to a plain variable
+// path, and returns that path.
+func negatedPath(expression string) (string, bool) {
+	expression = strings.TrimSpace(expression)
+	if !strings.HasPrefix(expression, "!") || strings.HasPrefix(expression, "!=") {
+		return "", false
+	}
+	operand := strings.TrimSpace(expression[1:])
+	if operand == "" || !helpers.IsPlainPath(operand) {
+		return "", false
+	}
+	return operand, true
 }
 
 // getProgram returns a cached compiled program or compiles a new one.
